@@ -5,7 +5,7 @@
 (* is reported (MISMATCH line) and validation continues with the state      *)
 (* advanced from what the implementation really did.                        *)
 (***************************************************************************)
-EXTENDS Import, Strings, Pem, KeyLife, PathValidation, TLC, Json, IOUtils
+EXTENDS Import, Strings, Pem, KeyLife, PathValidation, Cli, TLC, Json, IOUtils
 
 Rec == ndJsonDeserialize(IOEnv.TRACE)
 
@@ -128,6 +128,7 @@ ReqOf(ev) ==
      [] ev.op = "Validate" ->
           { <<"C12.verdict_eq", Covered(ev.args.validator, ev.args) =>
                                   ev.obs.accept = Verdict(ev.args.chain, ev.args.day, ev.args.purpose)>> }
+     [] ev.op = "CliRun" -> ReqCli(ev.be, ev.args.opts, ev.obs)
      [] ev.op = "ImportCa" -> ReqImportEv(ev)
      [] ev.op = "Chain" -> ReqChain(ev.args, ev.out, ev.obs)
      [] ev.op = "Pem" -> (IF ev.out = "Ok" THEN ReqPem(ev.args, ev.obs) ELSE {<<"C14.pem_produced", FALSE>>})
